@@ -42,6 +42,8 @@ def families(tier):
         {'name': 'N3', 'params': {'hist': 'BB', 'universe': UN3, 'kinds': ['is_dir'], 'roles': ['o'],
                                   'bf_modes': ['ok', 'raise_after']}, 'weight': 3},
         {'name': 'S1', 'params': {'hist': 'BB'}, 'weight': 1},
+        {'name': 'A5c', 'params': {'hist': 'BB', 'laws_only': True}, 'weight': 1},
+        {'name': 'A5d', 'params': {'hist': 'BB', 'laws_only': True}, 'weight': 1},
     ]
     if tier == 'quick':
         return q
@@ -72,6 +74,8 @@ def programs(eng, fam, P):
         return ([b1, b2] if first == 0 else [b2, b1]), ['o/d', 'o/d/g']
     if fam == 'N3':
         return skeleton(eng, 'N3', P), ['o/w', 'o/m/x', 'o/d/g']
+    if fam in ('A5c', 'A5d'):
+        return skeleton(eng, fam, dict(P, kinds=['is_dir'], modes=['ok', 'raise_after'])), ['o/d', 'o/d/g']
     if fam == 'S1':
         # within one build: a (failing, caught) build_file on a path that a later build_file uses as a directory
         return skeleton(eng, 'S1', P), ['o/d', 'o/d/g']
@@ -194,6 +198,13 @@ def harness(eng, fam, P):
                 nb += 1
                 # the probe needs Side objects to issue queries: build them through the driver hook
                 impl, ref = _build_with_probe(d, prog, pr)
+                if P.get('laws_only'):
+                    # a corner the reference model does not describe: only the consistency laws on the implementation's own
+                    # answers (checked inside the probe) are obligations
+                    pr.answers = {'impl': {}, 'ref': {}}
+                    if impl[0] != 'ok':
+                        return
+                    continue
                 pr.compare(nb)
                 d.guard_same()
                 if any(':start' in k or ':written' in k for k in pr.answers['impl']) or True:
